@@ -69,7 +69,7 @@ func prepareEvo(ctx *Ctx, harnesses []string, reach string) (*Prepared, error) {
 	kinds := map[string]map[string]string{}
 	jo := JobOptions{LoopBudget: 4096, AllocLimit: 1 << 16, TimeoutMs: 20000, EnumCap: 64, CheckRewrites: true, Witnesses: 2, FuncBudgetS: 120}
 	if ctx.Tier == "thorough" {
-		jo.FuncBudgetS = 1800
+		jo.FuncBudgetS = 600
 	}
 	hints := loadHints(ctx)
 	for i, pr := range pairs {
@@ -82,6 +82,12 @@ func prepareEvo(ctx *Ctx, harnesses []string, reach string) (*Prepared, error) {
 		km := pr.V2.Kinds()
 		kinds[pr.Name] = km
 		kinds[pr.Name+"a"] = pr.V1.Kinds()
+		if ctx.Tier != "thorough" && pr.Kind == "add-two" && (pr.Context == "array-element" || pr.Context == "map-value" || pr.Context == "struct-in-array") {
+			// quick tier: the two-field evolution inside containers of up to two
+			// elements (72^2 value structures x every short-read position) is left to
+			// the thorough tier; the one-field evolutions cover these contexts
+			continue
+		}
 		for _, h := range harnesses {
 			j := &Job{Name: pr.Name + " " + pr.Shape + " " + h, Dir: mod, Patterns: []string{"./" + pr.Name}, Funcs: []string{"corp/" + pr.Name + "." + h}, Opt: jo,
 				Meta: map[string]string{"evolution": pr.Kind, "context": pr.Context}}
@@ -112,6 +118,7 @@ func prepareEvo(ctx *Ctx, harnesses []string, reach string) (*Prepared, error) {
 		"pairs":    "3 evolutions (one added int32 field; two added fields string+uint8 with a gap in the indices; a field the reader has deprecated but the peer still sends) x 8 nesting contexts of the evolved message (top level, struct field, array element, map value, message field, union branch, field of a struct that is itself a struct field, field of a struct that is an array element), each followed by a sentinel field",
 		"values":   fmt.Sprintf("v2 values: all scalar leaves symbolic, arrays/maps of 0..%d elements, strings of 0..%d bytes, every nil/non-nil combination of message fields", tier.MaxArr, tier.MaxStr),
 		"decoders": "UnmarshalBebop and DecodeBebop of the v1 code on MarshalBebop bytes of the v2 value",
+		"quick":    "the two-field evolution inside array elements, map values and arrays of structs is run in the thorough tier only (21 of the 24 pairs in the quick tier)",
 		"outside":  "several evolved messages in one record, evolutions of nested depth > 1, removed fields",
 	}
 	p.Assumptions = []string{"v2 values satisfy the validity predicate of the codec checks", "64-bit little-endian target"}
